@@ -65,6 +65,10 @@ def deep(tracks, counters: bool = False) -> dict:
     g = tracks.graph
     d = canon(tracks)
     d["graph_attrs"] = tuple(sorted((str(k), repr(norm(v))) for k, v in g.graph.items()))
+    seg_ = tracks.segmentation
+    d["seg_flags"] = None if seg_ is None else (
+        type(seg_).__name__, bool(getattr(getattr(seg_, "flags", None), "writeable", True)),
+        str(getattr(seg_, "dtype", "")))
     d["scale"] = None if tracks.scale is None else norm(list(tracks.scale))
     f = tracks.features
     d["features"] = {k: norm(dict(v)) for k, v in f.items()}
